@@ -328,6 +328,7 @@ type nxCluster struct {
 	lazy        map[uint64]bool // hosts whose apply worker is being held back (deviation)
 	scriptHold  map[uint64]bool // of those, the ones held by the scenario script
 	rnd         *nxRand         // the deterministic identifier source of this cluster
+	cfgSaved    *nxCfg
 	used        struct{ timeouts, ticks, crashes, drops, dups, reorders, writes, reads, lazy, heartbeats, transfers, stops, partitions, holdJobs int }
 	recordHooks bool
 	pool        *sync.Pool
@@ -885,6 +886,7 @@ func (c *nxCluster) scriptEvent(it string) uint32 {
 
 func (c *nxCluster) runPrefix() {
 	saved := c.cfg
+	c.cfgSaved = saved
 	tmp := *saved
 	tmp.MaxDev = 0
 	c.cfg = &tmp
@@ -892,18 +894,28 @@ func (c *nxCluster) runPrefix() {
 		if it == "D*" {
 			for n := 0; n < 2000 && len(c.msgs) > 0; n++ {
 				if msg := c.Step(nxev(nxDeliver, 0, 0)); msg != "" {
-					panic("prefix: " + msg)
+					c.prefixFailed(msg)
+					return
 				}
 			}
 			continue
 		}
 		if msg := c.Step(c.scriptEvent(it)); msg != "" {
-			panic("prefix: " + msg)
+			c.prefixFailed(msg)
+			return
 		}
 	}
 	c.cfg = saved
 	c.used = struct{ timeouts, ticks, crashes, drops, dups, reorders, writes, reads, lazy, heartbeats, transfers, stops, partitions, holdJobs int }{}
 	c.devs, c.spos = 0, 0
+}
+
+// prefixFailed: an oracle failed while the fixed scenario prefix was running
+// (before the search starts): it is reported as a violation of the initial
+// state instead of aborting the worker.
+func (c *nxCluster) prefixFailed(msg string) {
+	c.cfg = c.cfgSaved
+	c.viol = "in the scenario prefix: " + msg
 }
 
 func (c *nxCluster) pendingLookup() int {
